@@ -142,3 +142,17 @@ def shrink_ops(case, key='ops'):
                 yield dict(case, **{key: cand})
             i += size
         size //= 2
+
+
+def unexpected(exc, op=None):
+    """detail text for an exception nobody predicted: every refusal the statement allows is caught
+    where the operation is made, so an exception that arrives at the top of a run was raised by an
+    operation the reference model accepts -- the implementation and the model disagree"""
+    import traceback
+    tb = traceback.extract_tb(exc.__traceback__)
+    where = ''
+    if tb:
+        fr = tb[-1]
+        where = ' at %s:%d (%s)' % (fr.filename.rsplit('/', 1)[-1], fr.lineno, (fr.line or '').strip()[:80])
+    return 'operation %r, which the reference model accepts, raised %s: %s%s' % (
+        op, type(exc).__name__, str(exc)[:200], where)
